@@ -141,7 +141,7 @@ def coq_build(pid, log):
         rc, out = sh([f"{V}/tools/coqproject.sh"])
         if os.path.exists(f"{COQ}/Props/{pid}.vo"):
             os.remove(f"{COQ}/Props/{pid}.vo")
-        rc, out = sh(f"timeout 1500 make -j16 Props/{pid}.vo", cwd=COQ, timeout=1600)
+        rc, out = sh(f"timeout 1500 make -j6 Props/{pid}.vo", cwd=COQ, timeout=1600)
     log.append(out[-6000:])
     res["out"] = out
     if rc != 0:
@@ -211,6 +211,7 @@ def judge_cases(prop, cases, scratch, per_case_timeout=None):
         items = shards[k]
         off = 0
         attempt = 0
+        consecutive = 0
         while off < len(items):
             rc, out = eval_file(f"{scratch}/cases_{k}_{attempt}.v", items[off:])
             attempt += 1
@@ -218,12 +219,16 @@ def judge_cases(prop, cases, scratch, per_case_timeout=None):
             for j, v in enumerate(vs):
                 results[base + off + j] = (v[0] == "true", v[1] == "true", int(v[2]), int(v[3]))
             off += len(vs)
+            consecutive = 0 if vs else consecutive + 1
             if off < len(items):
                 # the Eval for items[off] failed (type error, timeout, stack): record and skip it
                 errors.append((items[off][0][:200], rc, out[-800:]))
                 off += 1
+                if "inconsistent assumptions" in out or "Cannot find a physical path" in out or consecutive >= 6:
+                    # environment problem (stale .vo), not a problem of this case: give up on the shard
+                    break
 
-    with ThreadPoolExecutor(max_workers=int(os.environ.get("VERIF_JOBS", "16"))) as ex:
+    with ThreadPoolExecutor(max_workers=int(os.environ.get("VERIF_JOBS", "5"))) as ex:
         list(ex.map(run_shard, range(len(shards))))
     return results, errors
 
